@@ -24,6 +24,7 @@ pub fn plan(prop: &str) -> Option<Plan> {
             level: "exploration",
             parts: vec![
                 p("worldsim", "lifecycle", 160_000, 4_500_000),
+                p("worldsim", "bulk", 12_000, 300_000),
                 p("worldsim", "parallel", 18_000, 600_000),
             ],
             cross_process: false,
@@ -32,14 +33,14 @@ pub fn plan(prop: &str) -> Option<Plan> {
         },
         "C02" => Plan {
             level: "exploration",
-            parts: vec![p("worldsim", "lifecycle", 160_000, 4_500_000), p("worldsim", "churn", 32_000, 900_000)],
+            parts: vec![p("worldsim", "lifecycle", 160_000, 4_500_000), p("worldsim", "churn", 32_000, 900_000), p("worldsim", "bulk", 12_000, 300_000)],
             cross_process: false,
             miri: vec![],
             assumptions: base,
         },
         "C17" => Plan {
             level: "exploration",
-            parts: vec![p("worldsim", "churn", 120_000, 3_000_000), p("worldsim", "lifecycle", 80_000, 1_500_000), p("worldsim", "faults", 30_000, 300_000)],
+            parts: vec![p("worldsim", "churn", 80_000, 3_000_000), p("worldsim", "lifecycle", 60_000, 1_500_000), p("worldsim", "bulk", 12_000, 300_000), p("worldsim", "faults", 30_000, 300_000)],
             cross_process: false,
             miri: vec![],
             assumptions: base,
@@ -163,6 +164,7 @@ pub fn selftest(runs: u64) -> i32 {
         ("twin", "save"),
         ("twin", "faults"),
         ("worldsim", "trackedfaults"),
+        ("worldsim", "bulk"),
     ] {
         let part = p(engine, profile, runs, runs);
         let a = run_part("", &part, runs, DEFAULT_SEED, 16, Duration::from_secs(600), true);
